@@ -32,7 +32,8 @@ def prepare():
     for extra in ('trace/Cargo.toml',):
         q = f'{MV}/verif/{extra}'
         if os.path.exists(q):
-            open(q, 'w').write(open(q).read().replace('path = "/repo"', f'path = "{MV}/repo"'))
+            t = open(q).read().replace('path = "/repo"', f'path = "{MV}/repo"')
+            open(q, 'w').write(t)
 
 
 def main():
